@@ -111,8 +111,18 @@ def flat_history(bs, toks):
     """flat-file specification of an ops history given the C tokens (which writes/resizes succeeded).
     toks: list of (op, ctoken).  Returns (flat bytes, violation)"""
     flat = bytearray()
+    limits_changed = False      # since the last successful resize (which recorded sizes reachable under the limits of that time)
     for op, ct in toks:
+        if op[0] == 'L':
+            limits_changed = True
         if op[0] == 'R' and ct.startswith('r0'):
+            if ct.endswith('~') and limits_changed:
+                # outside the hypothesis of the refinement theorems (C17_split_concat needs `wf`: every split file has its
+                # recorded size at each resize; parity_truncate / damage break it).  With unchanged limits the resize
+                # restores the recorded sizes and the flat file is still the specification; with changed limits the splits
+                # may be laid out anew and what the cut files no longer held is gone: not judged from here on.
+                return None, None
+            limits_changed = False
             size = int(op[1:])
             if size <= len(flat):
                 del flat[size:]
@@ -136,6 +146,9 @@ def flat_history(bs, toks):
     return flat, None
 
 
+OUTSIDE_HYP = [0]
+
+
 def oracle_ops(bs, line, out):
     ops = line.split()[4 + int(line.split()[3]):]
     if '|' not in out:
@@ -151,6 +164,9 @@ def oracle_ops(bs, line, out):
     flat, v = flat_history(bs, pairs)
     if v:
         return v
+    if flat is None:
+        OUTSIDE_HYP[0] += 1
+        return None
     view = bytearray()
     for t in right.split():
         rec, hx = t.split(':')
@@ -291,8 +307,9 @@ def gen_ops_cases(rng, count):
 # command level
 
 class Array:
-    def __init__(self, tool, root, name, levels, datadirs, limit):
+    def __init__(self, tool, root, name, levels, datadirs, limit, opts=()):
         self.tool, self.root, self.name, self.levels, self.limit = tool, root, name, levels, limit
+        self.opts = list(opts)
         self.dir = os.path.join(root, name)
         os.makedirs(self.dir)
         self.datadirs = datadirs
@@ -312,7 +329,7 @@ class Array:
         if os.path.exists(log):
             os.remove(log)
         extra = ['--test-parity-limit=%d' % self.limit] if self.limit else []
-        r = run([self.tool] + BASE + extra + ['-c', os.path.join(self.dir, 'conf'), '-l', log] + cmd, timeout=120)
+        r = run([self.tool] + BASE + self.opts + extra + ['-c', os.path.join(self.dir, 'conf'), '-l', log] + cmd, timeout=120)
         try:
             lg = open(log, errors='replace').read()
         except FileNotFoundError:
@@ -361,7 +378,17 @@ def run_scenario(chk, tool, model, rng, root, idx, stats):
     for d in datadirs:
         os.makedirs(d)
     nlev = rng.choice([1, 2, 2, 3])
-    nsplit = [rng.choice([2, 3, 4]) for _ in range(nlev)]
+    nsplit = [rng.choice([1, 2, 2, 3, 3, 4, 4, 5, 8]) for _ in range(nlev)]
+    if max(nsplit) == 1:
+        nsplit[rng.randrange(nlev)] = rng.choice([2, 3])
+    fam = {'skip_fallocate': rng.random() < 0.5, 'add_split': rng.random() < 0.6, 'damage': rng.random() < 0.8}
+    # the first scenarios of every run reach every family whatever the seed
+    force = {1: {'add': 'prealloc_misaligned'}, 2: {'add': 'prealloc_data', 'damage': 'cut_unaligned'}, 3: {'add': 'absent', 'damage': 'delete'},
+             4: {'damage': 'extend'}, 5: {'add': 'prealloc_zero', 'damage': 'cut_aligned'}, 6: {'damage': 'empty'}}.get(idx, {})
+    if 'add' in force:
+        fam['add_split'] = True
+    if 'damage' in force:
+        fam['damage'] = True
     # file plan: phase 1 and phase 2 files per disk
     plan = []
     for ph in range(3):
@@ -384,8 +411,11 @@ def run_scenario(chk, tool, model, rng, root, idx, stats):
             while any(cap(limit, l) < pmax for l in range(nlev)):
                 limit += rng.randrange(1, BS)
     A = Array(tool, sroot, 'A', [[os.path.join(sroot, 'A', 'L%d.parity' % l)] for l in range(nlev)], datadirs, 0)
-    B = Array(tool, sroot, 'B', [[os.path.join(sroot, 'B', 'L%d.s%d.parity' % (l, s)) for s in range(nsplit[l])] for l in range(nlev)], datadirs, limit)
-    desc = {'scenario': idx, 'levels': nlev, 'splits_per_level': nsplit, 'test_parity_limit': limit, 'plan_bytes': plan, 'seed': chk.seed}
+    B = Array(tool, sroot, 'B', [[os.path.join(sroot, 'B', 'L%d.s%d.parity' % (l, s)) for s in range(nsplit[l])] for l in range(nlev)], datadirs, limit,
+              ['--test-skip-fallocate'] if fam['skip_fallocate'] else [])
+    desc = {'scenario': idx, 'levels': nlev, 'splits_per_level': list(nsplit), 'test_parity_limit': limit, 'plan_bytes': plan, 'seed': chk.seed, 'families': fam}
+    if fam['skip_fallocate']:
+        stats['skip_fallocate_scenarios'] += 1
     recorded = [[0] * n for n in nsplit]            # what the content file of B holds (0 before the first sync)
     counter = [0]
 
@@ -487,6 +517,131 @@ def run_scenario(chk, tool, model, rng, root, idx, stats):
         recorded = [[x or 0 for x in r] for r in rec_now]
         return ok
 
+    def damage_and_fix():
+        cands = [(l, i) for l in range(nlev) for i in range(nsplit[l]) if recorded[l][i] >= BS]
+        if not cands:
+            return True
+        l, i = rng.choice(cands)
+        path = B.levels[l][i]
+        rec = recorded[l][i]
+        kind = rng.choice(['delete', 'cut_aligned', 'cut_unaligned', 'extend', 'empty'])
+        kind = force.get('damage', kind)
+        if kind == 'delete':
+            os.remove(path)
+        elif kind == 'empty':
+            open(path, 'wb').close()
+        elif kind == 'cut_aligned':
+            os.truncate(path, rng.randrange(0, rec // BS) * BS)
+        elif kind == 'cut_unaligned':
+            os.truncate(path, rng.randrange(0, rec // BS) * BS + rng.randrange(1, BS))
+        else:
+            with open(path, 'ab') as f:
+                f.write(bytes(rng.getrandbits(8) for _ in range(rng.choice([1, BS - 1, BS, 2 * BS + 7]))))
+        stats['damage_' + kind] += 1
+        before = B.file_sizes()
+        twin = [open(A.levels[x][0], 'rb').read() for x in range(nlev)]
+        d = {'damaged_level': l, 'damaged_split': i, 'damage': kind, 'recorded': recorded, 'files_before_fix': before}
+        # check (read only) on the damaged parity: must terminate normally; cut data is reported as errors
+        rc, out, lg = B.run(['check'])
+        stats['commands'] += 1
+        if rc not in (0, 1):
+            viol('damage_check', 'check on a parity with a damaged split (%s) ended with rc=%d: %s' % (kind, rc, out[-300:]), d)
+            return False
+        if rc == 1:
+            stats['damage_detected_by_check'] += 1
+        # a fix that cannot restore the recorded size of the split (less room than recorded) must refuse, not renumber
+        lines = []
+        psz = [sum(r) for r in recorded]
+        refuse = kind in ('delete', 'empty', 'cut_aligned', 'cut_unaligned') and rng.random() < 0.3
+        saved_limit = B.limit
+        if refuse:
+            # a limit whose per-split value for (i, l) is below the recorded size
+            L2 = next((L for L in range(max(1, rec // 2 - BS), 0, -1) if py_parity_limit(L, i, l) < rec), None)
+            if L2 is None:
+                refuse = False
+            else:
+                B.limit = L2
+                ln = [chsize_line((BS, 0, [(recorded[x][y], before[x][y], py_parity_limit(L2, y, x)) for y in range(nsplit[x])], psz[x])) for x in range(nlev)]
+                pr = [parse_chsize_out(o) for o in run_lines(model, ln, shards=1)]
+                first_err = next((x for x in range(nlev) if pr[x]['kind'] == 'err'), None)
+                if first_err is None:
+                    # the damaged split is the last used one: with less room fix lays the parity out differently (and does not
+                    # record it: candidate finding, harness/py/c17_repro_fix_relayout.py); not driven here
+                    stats['fix_relayout_cases_skipped'] += 1
+                    B.limit = saved_limit
+                    refuse = False
+            if refuse:
+                rc, out, lg = B.run(['fix'])
+                stats['commands'] += 1
+                B.limit = saved_limit
+                stats['restore_refused'] += 1
+                if rc == 0:
+                    viol('damage_refuse', 'fix succeeded although split %d of level %d (recorded %d bytes) cannot be restored under limit %d (model: %s)' %
+                         (i, l, rec, L2, pr[first_err]['what']), dict(d, model_lines=ln))
+                    return False
+                msg = 'Failed restoring' if pr[first_err]['what'].startswith('restore') else 'Failed to allocate all'
+                if msg not in out:
+                    viol('damage_refuse', 'fix refused (rc=%d) but not with the outcome the model predicts (%s): %s' % (rc, pr[first_err]['what'], out[-300:]), dict(d, model_lines=ln), drift=True)
+                    return False
+                before = B.file_sizes()
+        for x in range(nlev):
+            lines.append(chsize_line((BS, 0, [(recorded[x][y], before[x][y], py_parity_limit(limit, y, x)) for y in range(nsplit[x])], psz[x])))
+        pred = [parse_chsize_out(o) for o in run_lines(model, lines, shards=1)]
+        rc, out, lg = B.run(['fix'])
+        stats['commands'] += 1
+        if any(p['kind'] == 'err' for p in pred):
+            viol('damage_fix', 'model predicts that the recorded sizes cannot be restored: %s' % [p.get('what') for p in pred], dict(d, model_lines=lines), drift=True)
+            return False
+        if rc != 0:
+            viol('damage_fix', 'fix of a %s split failed rc=%d: %s' % (kind, rc, out[-300:]), d)
+            return False
+        after = B.file_sizes()
+        good = True
+        cut_from = []              # regions cut again by parity_truncate (grown by fix but never written by it)
+        for x in range(nlev):
+            tr = log_trace(lg, B.levels[x])
+            if tr != pred[x]['trace']:
+                viol('damage_fix', 'level %d: model predicts grow attempts %s during fix, split:delta/grow tags say %s' % (x, pred[x]['trace'], tr), dict(d, model_line=lines[x]), drift=True)
+                good = False
+            cat = b''
+            for y, p in enumerate(B.levels[x]):
+                data = open(p, 'rb').read()
+                r = recorded[x][y]
+                if len(data) > r:
+                    viol('damage_fix', 'level %d split %d has %d bytes after fix, recorded %d' % (x, y, len(data), r), d)
+                    good = False
+                if len(data) < r:
+                    cut_from.append((x, len(cat) + len(data), len(cat) + r))
+                cat += (data + bytes(max(0, r - len(data))))[:r]
+            if len(cat) != len(twin[x]):
+                viol('damage_fix', 'level %d: the splits hold %d bytes after fix, the single-file parity %d' % (x, len(cat), len(twin[x])), d)
+                good = False
+                continue
+            for b in range(len(cat) // BS):
+                if cat[b * BS:(b + 1) * BS] != twin[x][b * BS:(b + 1) * BS]:
+                    if any(xx == x and lo <= b * BS + BS - 1 and b * BS < hi for xx, lo, hi in cut_from):
+                        stats['fix_left_unwritten_tail_blocks'] += 1
+                        continue
+                    viol('damage_fix', 'level %d: after fix of a %s split the parity block %d read through the splits differs from the single-file parity' % (x, kind, b),
+                         dict(d, files_after_fix=after))
+                    good = False
+                    break
+            stats['damage_level_checks'] += 1
+        rc, out, lg = B.run(['check'])
+        stats['commands'] += 1
+        if rc != 0 and cut_from and rc == 1:
+            # CANDIDATE FINDING (harness/py/c17_repro_fix_short.py): the cut part of the split held zeros; fix extended the file
+            # (zeros), found the parity equal, wrote nothing, and parity_truncate cut the file back to its damaged length
+            # (valid_size is not raised by growth): check keeps reporting a read error until the next sync regrows the file
+            stats['fix_left_short_file_check_fails'] += 1
+        elif rc != 0:
+            viol('damage_recheck', 'check fails (rc=%d) after fix of a %s split: %s' % (rc, kind, out[-300:]), d)
+            good = False
+        # the next sync must find the sizes it recorded (restores what fix left cut) and change nothing else
+        if good:
+            good = sync_and_verify('after_damage_fix')
+        return good
+
     steps = 0
     add_files(0)
     if not sync_and_verify('grow1'):
@@ -497,8 +652,53 @@ def run_scenario(chk, tool, model, rng, root, idx, stats):
     delete_top()
     if not sync_and_verify('shrink'):
         return desc
+    # ---- family: a split is ADDED to the configuration (its recorded size is unset: parity_create takes the size of the
+    #      file found on disk, 0 if it does not exist, k blocks if it was preallocated)
+    if fam['add_split']:
+        l = rng.randrange(nlev)
+        if nsplit[l] < 8:
+            newp = os.path.join(sroot, 'B', 'L%d.s%d.parity' % (l, nsplit[l]))
+            kind = rng.choice(['absent', 'absent', 'prealloc_zero', 'prealloc_data', 'prealloc_misaligned'])
+            kind = force.get('add', kind)
+            k = 0
+            if kind == 'prealloc_misaligned':
+                # a preallocated file whose size is not a block multiple cannot become part of the address map:
+                # parity_create must refuse it ("Error in preallocated size"), nothing is resized or recorded
+                with open(newp, 'wb') as f:
+                    f.write(bytes(rng.randrange(0, 3) * BS + rng.randrange(1, BS)))
+                B.levels[l].append(newp)
+                B.write_conf()
+                szb = B.file_sizes()
+                rc, out, lg = B.run(['sync'])
+                stats['commands'] += 1
+                stats['added_split_prealloc_misaligned'] += 1
+                if rc == 0 or 'Error in preallocated size' not in out:
+                    viol('add_misaligned', 'a preallocated split of %d bytes (not a block multiple) added to level %d was not refused: rc=%d %s' %
+                         (os.path.getsize(newp), l, rc, out[-200:]))
+                    return desc
+                if B.file_sizes() != szb:
+                    viol('add_misaligned', 'the refused sync changed the split files: %s -> %s' % (szb, B.file_sizes()))
+                    return desc
+                B.levels[l].pop()
+                os.remove(newp)
+                kind = 'absent'
+            if kind != 'absent':
+                k = rng.randrange(1, 3)
+                with open(newp, 'wb') as f:
+                    f.write(bytes(k * BS) if kind == 'prealloc_zero' else bytes(rng.getrandbits(8) for _ in range(k * BS)))
+            B.levels[l].append(newp)
+            B.write_conf()
+            nsplit[l] += 1
+            recorded[l].append(k * BS)
+            desc['added_split'] = {'level': l, 'kind': kind, 'blocks': k}
+            stats['added_split_' + kind] += 1
     add_files(2)
     if not sync_and_verify('regrow'):
+        return desc
+    # ---- family: a split file is lost / cut / extended; fix (whole array, so that the parity is opened for writing:
+    #      parity_create + parity_chsize restoring the recorded sizes + parity_write + parity_truncate) must give back a
+    #      parity whose concatenation is the twin's, with the recorded sizes, and check must pass again
+    if fam['damage'] and not damage_and_fix():
         return desc
     # ---- dropped trailing splits (state.c): model predicts accept/refuse
     for l in range(nlev):
@@ -623,6 +823,7 @@ def main(tier, replay=None):
                                   {'driver': 'harness/c/c17_drv.c', 'case_line': ln, 'c': c, 'model': m})
             if nontrivial:
                 nontrivial(ln, c)
+            c = c.replace('~ ', ' ')          # C-only observation used by oracle_ops
             if c != m:
                 same = c.split('|')[0] == m.split('|')[0] and any(t in ('r-1', 'r-2') for t in c.split('|')[0].split())
                 if same:
@@ -724,7 +925,9 @@ def main(tier, replay=None):
 
     # ---- command level
     cstats = dict(commands=0, steps=0, level_checks=0, expected_failures=0, limit_hit_mid_growth=0, levels_spanning_several_splits=0,
-                  dropped_split_cases=0, dropped_accepted=0, dropped_refused=0, fix_restored_files=0, scenarios_completed=0)
+                  dropped_split_cases=0, dropped_accepted=0, dropped_refused=0, skip_fallocate_scenarios=0, added_split_absent=0, added_split_prealloc_zero=0, added_split_prealloc_data=0, added_split_prealloc_misaligned=0,
+                  damage_delete=0, damage_empty=0, damage_cut_aligned=0, damage_cut_unaligned=0, damage_extend=0, damage_detected_by_check=0, restore_refused=0, fix_relayout_cases_skipped=0,
+                  damage_level_checks=0, fix_left_unwritten_tail_blocks=0, fix_left_short_file_check_fails=0, fix_restored_files=0, scenarios_completed=0)
     nscen = (30 if tier == 'quick' else 250) * (2 if broken else 1)
     descs = []
     for i in range(nscen):
@@ -734,6 +937,28 @@ def main(tier, replay=None):
             chk.violation('cmd_timeout_%d' % i, 'scenario %d: a snapraid command did not terminate within 120 s' % i, {'scenario': i, 'seed': chk.seed})
         if len(chk.violations) > 12:
             break
+
+    # ---- configuration rule: at most SPLIT_MAX = 8 files per level
+    try:
+        croot = os.path.join(scratch, 'cfg')
+        cd = os.path.join(croot, 'data', 'd1')
+        os.makedirs(cd)
+        open(os.path.join(cd, 'f'), 'wb').write(bytes(range(256)) * 20)
+        for n, want_ok in ((8, True), (9, False)):
+            arr = Array(tool, croot, 'n%d' % n, [[os.path.join(croot, 'n%d' % n, 's%d.parity' % i) for i in range(n)]], [cd], 700)
+            rc, out, lg = arr.run(['sync'])
+            cstats['commands'] += 1
+            if want_ok and rc != 0:
+                chk.violation('cfg_8_splits', 'a level with 8 split files is refused: rc=%d %s' % (rc, out[-200:]), {'splits': n, 'limit': 700})
+            if not want_ok and (rc == 0 or 'Too many files' not in out):
+                chk.violation('cfg_9_splits', 'a level with 9 split files is not refused: rc=%d %s' % (rc, out[-200:]), {'splits': n})
+            if want_ok and rc == 0:
+                szs = arr.file_sizes()[0]
+                cstats['eight_splits_sizes'] = szs
+                if sum(szs) != 5 * BS or any(x % BS for x in szs):
+                    chk.violation('cfg_8_splits', '8 splits under limit 700: files %s do not hold the 5 parity blocks' % szs, {'splits': n, 'limit': 700})
+    except Exception as e:
+        chk.notes.append('config rule test not run: %r' % e)
 
     # ---- verdict for drift / broken obligations
     if drift_cases and not [v for v in chk.violations if not v[2]]:
@@ -749,12 +974,25 @@ def main(tier, replay=None):
     chk.cov.update({'evaluations': ev,
                     'distinct_nontrivial': stats['find_inside'] + stats['chsize_limit_hit'] + stats['ops_multi_split'] + cstats['levels_spanning_several_splits'],
                     'rule': 'non-trivial = find cases mapped inside a split + chsize cases where a limit is hit mid-growth + histories whose final state spans >1 split + command-level (sync, level) checks whose parity spans >1 split',
-                    'unit': stats, 'command_level': cstats,
+                    'unit': dict(stats, ops_not_judged_by_flat_oracle_outside_wf_hypothesis=OUTSIDE_HYP[0]), 'command_level': cstats,
                     'traces_validated_against_impl': stats['chsize'] + stats['ops'] + cstats['level_checks'],
                     'model_drift': stats['drift']})
     chk.cov['samples'] = [{'case': l} for l in flines[:2] + clines[:3] + oc[:2]] + [d for d in descs[:2]]
     chk.assumptions += ['the growth oracle is --test-parity-limit (monotone, constant over the history); real ENOSPC behaviour is not exercised',
                         'command level uses blocksize 1 KiB, 3 data disks, 1..3 parity levels, 2..4 splits per level',
                         'twin arrays share the data directories; fix is run on the split array only, after the comparison',
+                        'exercised by oracle only (no theorem): fix on a parity with a lost / cut / extended split (parity_create with st_size != recorded size, '
+                        'parity_truncate), --test-skip-fallocate, splits added to the configuration (preallocated or not), refusal of misaligned preallocation and of a 9th split; '
+                        'the chsize decisions inside these commands are predicted by the model (sizes and grow traces)',
+                        'CANDIDATE FINDING, not counted: when the LAST USED split is lost and has less room than recorded, fix lays the parity out over the next split, '
+                        'reports success and does not record the new sizes; check then reports errors until the next sync (harness/py/c17_repro_fix_relayout.py); '
+                        'such cases are counted as fix_relayout_cases_skipped',
+                        'CANDIDATE FINDING, not counted: a split cut inside a region whose parity bytes are zero is extended by fix, compared equal, not written, and cut '
+                        'again by parity_truncate (valid_size is not raised by growth): fix says OK, check keeps reporting a read error until the next sync '
+                        '(harness/py/c17_repro_fix_short.py); counted as fix_left_short_file_check_fails',
+                        'HYPOTHESIS of the flat-file oracle on ops histories = hypothesis wf of C17_split_concat: at every resize each split file has its recorded '
+                        'size; parity_truncate (T) breaks it; a history is still judged after T as long as the limits are unchanged (the resize then restores the '
+                        'recorded sizes), and is not judged by the flat oracle (model vs C only) from a resize that starts without wf after a limit change '
+                        '(C17_split_concat_needs_wf is the witness that the statement is false there)',
                         'regression scenario of the repaired mid-zero-split defect (c17_repro_midzero) is run on every check and counts as a violation if it fails']
     return chk.finish()
